@@ -214,6 +214,12 @@ func run(env *simrt.Env, sci interface{}) {
 		if c1 == nil || c2 == nil || c3 == nil {
 			return
 		}
+		// a socket bound to the wildcard address: the source address of what it sends is looked up per datagram
+		cW, err := n1.ListenUDP("udp", &net.UDPAddr{Port: 4100})
+		if err != nil {
+			env.Infra("ListenUDP wildcard: %v", err)
+			return
+		}
 		_ = wan.Start()
 		conns := []net.PacketConn{c1, c2}
 		// c3 echoes what it receives to the (translated) source: inbound traffic through the NAT
@@ -242,6 +248,10 @@ func run(env *simrt.Env, sci interface{}) {
 				switch (o / 2) % 9 {
 				case 0, 1, 2:
 					_, _ = c.WriteTo(make([]byte, 1+o%100), peer)
+					if o%3 == 0 {
+						// several writers on the wildcard-bound socket, routed destinations
+						_, _ = cW.WriteTo(make([]byte, 1+o%100), &net.UDPAddr{IP: net.ParseIP("10.0.0.2"), Port: 4000})
+					}
 					if o%4 == 0 {
 						// loopback: delivered by the writer's goroutine itself, without the router
 						_, _ = c.WriteTo(make([]byte, 1+o%100), &net.UDPAddr{IP: net.IPv4(127, 0, 0, 1), Port: 4000})
@@ -276,10 +286,13 @@ func run(env *simrt.Env, sci interface{}) {
 		_ = c1.Close()
 		_ = c2.Close()
 		_ = c3.Close()
+		_ = cW.Close()
 		_ = inside.Close()
 		_ = wan.Stop()
 	case "build":
-		// independent virtual networks built in parallel
+		// independent virtual networks built in parallel; their configurations are cut from one
+		// address list (slices with spare capacity over one array), which the builders only read
+		addrPool := []string{"10.0.0.101", "10.0.0.102", "10.0.0.103", "10.0.0.104", "10.0.0.105"}
 		spawn(func(w int, ops []int) {
 			wan, err := vnet.NewRouter(&vnet.RouterConfig{CIDR: "10.0.0.0/24", LoggerFactory: quietLF()})
 			if err != nil {
@@ -287,7 +300,12 @@ func run(env *simrt.Env, sci interface{}) {
 			}
 			var conns []net.PacketConn
 			for i := 0; i < 1+len(ops)%3; i++ {
-				n, err := vnet.NewNet(&vnet.NetConfig{})
+				cfg := &vnet.NetConfig{}
+				if i == 0 && ops[0]%2 == 0 {
+					cfg.StaticIPs = addrPool[w : w+1]
+					cfg.StaticIP = fmt.Sprintf("10.0.0.%d", 120+w) // the deprecated single-address field on top
+				}
+				n, err := vnet.NewNet(cfg)
 				if err != nil {
 					return
 				}
@@ -432,6 +450,7 @@ func run(env *simrt.Env, sci interface{}) {
 			// batch mode: a writer goroutine flushes queued datagrams on a ticker
 			lcfg.Batch = udp.BatchIOConfig{Enable: true, ReadBatchSize: 2, WriteBatchSize: 3, WriteBatchInterval: 200 * time.Microsecond}
 		}
+		batchMode := lcfg.Batch.Enable
 		l, err := lcfg.Listen("udp", laddr)
 		if err != nil {
 			env.Infra("Listen: %v", err)
@@ -467,7 +486,7 @@ func run(env *simrt.Env, sci interface{}) {
 			buf := make([]byte, 256)
 			for _, o := range ops {
 				k := o % 7
-				if lcfg.Batch.Enable && k == 2 {
+				if batchMode && k == 2 {
 					k = 4 // batch mode: more writers on the connections (the batch queue is shared by all of them)
 				}
 				switch k {
@@ -495,6 +514,15 @@ func run(env *simrt.Env, sci interface{}) {
 					_ = l.Addr()
 					if o%5 == 0 {
 						_ = l.Close()
+					}
+					if o%4 == 1 {
+						// the configuration is the application's: Listen took what it needed, the
+						// application reuses the struct for its next listener
+						cmu.Lock()
+						lcfg.AcceptFilter = func(b []byte) bool { return len(b) > 0 }
+						lcfg.Backlog = 8
+						lcfg.Batch.ReadBatchSize = 1
+						cmu.Unlock()
 					}
 				}
 			}
